@@ -242,6 +242,9 @@ class C03(Prop):
                 if ctx.rng.random() < 0.25:
                     k = ctx.rng.randrange(len(s) + 1)
                     ctx.add("req", list(trip) + [dels([s[:k]])], stream=s[:k], prefix_of=cid)
+                if ctx.rng.random() < 0.3:
+                    for parts in G.schedules(ctx.rng, s, 1)[1:]:
+                        ctx.add("req", list(trip) + [dels(parts)], stream=s, whole=cid)
 
     def relations(self, ctx, impl):
         # a strict prefix of an accepted request is never rejected (default limits: prefix within limits)
@@ -264,6 +267,9 @@ class C04(Prop):
             if ctx.rng.random() < 0.25:
                 k = ctx.rng.randrange(len(s) + 1)
                 ctx.add("resp", [dels([s[:k]])], stream=s[:k], prefix_of=cid)
+            if ctx.rng.random() < 0.3:
+                for parts in G.schedules(ctx.rng, s, 1)[1:]:
+                    ctx.add("resp", [dels(parts)], stream=s, whole=cid)
         # framing order and code boundaries, systematically
         for cl in (None, b"3", b"+3", b"0"):
             for te in (None, b"chunked", b"gzip, chunked", b"gzip"):
@@ -615,6 +621,33 @@ class C09(Prop):
             ctx.add("req", ["d", "d", "d", dels([s])], group=g, base=True, stream=s)
             for sfx in rng.sample(SUFFIXES, 3) + [bytes(rng.randrange(256) for _ in range(rng.randint(1, 9)))]:
                 ctx.add("req", ["d", "d", "d", dels([s + sfx])], group=g, sfx=sfx, stream=s)
+        for s, meta in req_streams(ctx, ctx.n(200, 2000), p_odd=0.0, mutate_frac=0.0):
+            # (a) the message arrives in pieces, the suffix rides on the completing delivery
+            g = ("sfx", "req", s, "split")
+            ctx.add("req", ["d", "d", "d", dels([s])], group=g, base=True, stream=s)
+            for _ in range(3):
+                sfx = rng.choice(SUFFIXES)
+                cuts = sorted(rng.sample(range(1, len(s)), min(len(s) - 1, rng.randint(1, 3)))) if len(s) > 1 else []
+                if meta["body"] > 1 and rng.random() < 0.7:
+                    cuts = sorted(set(cuts + [meta["head"] + rng.randrange(1, meta["body"])]))
+                ctx.add("req", ["d", "d", "d", dels(G.cut_at(s + sfx, cuts))], group=g, sfx=sfx, stream=s)
+            # (b) a maximum message size equal to this message's size: bytes after it are not its business
+            tot = str(meta["head"] + meta["body"])
+            g = ("sfx", "req", s, "mm")
+            ctx.add("req", ["d", "d", tot, dels([s])], group=g, base=True, stream=s)
+            for sfx in rng.sample(SUFFIXES, 2) + [G.gen_request(rng, 0.0)[0]]:
+                ctx.add("req", ["d", "d", tot, dels([s + sfx])], group=g, sfx=sfx, stream=s)
+            msgs = [s, G.gen_request(rng, 0.0)[0]]
+            big = str(max(len(m) for m in msgs))
+            ids = [ctx.add("req", ["d", "d", big, dels([m])], stream=m) for m in msgs]
+            ctx.add("pipereq", ["d", "d", big, hx(b"".join(msgs))], singles=ids, msgs=msgs)
+        for s, meta in resp_streams(ctx, ctx.n(150, 1500), p_odd=0.0, mutate_frac=0.0):
+            g = ("sfx", "resp", s, "split")
+            ctx.add("resp", [dels([s])], group=g, base=True, stream=s)
+            for _ in range(3):
+                sfx = rng.choice(SUFFIXES)
+                cuts = sorted(rng.sample(range(1, len(s)), min(len(s) - 1, rng.randint(1, 3)))) if len(s) > 1 else []
+                ctx.add("resp", [dels(G.cut_at(s + sfx, cuts))], group=g, sfx=sfx, stream=s, split=True)
         for s, meta in resp_streams(ctx, ctx.n(300, 3000), p_odd=0.02, mutate_frac=0.1):
             g = ("sfx", "resp", s)
             ctx.add("resp", [dels([s])], group=g, base=True, stream=s)
@@ -655,7 +688,11 @@ class C09(Prop):
                     ok = resp_boundary(f) == bd and all(f.get(k) == base.get(k) for k in ("code", "r", "h", "b"))
                     if ok and f.get("x", "") != base.get("x", ""):
                         # FixedBody: the suffix must be the continuation of the trailing data, verbatim
-                        ok = bytes.fromhex(f["x"]) == bytes.fromhex(base.get("x", "")) + sfx
+                        # (when the message arrived in pieces only the part delivered with the
+                        # completing call is present)
+                        want = bytes.fromhex(base.get("x", "")) + sfx
+                        got = bytes.fromhex(f["x"])
+                        ok = got == want or (ctx.meta[cid].get("split") and want.startswith(got))
                 if not ok:
                     yield [ids[0], cid], f"suffix {sfx!r} changed the parse: {impl[ids[0]][0][:150]} vs {impl[cid][0][:150]}"
         for cid, m in ctx.meta.items():
@@ -1245,6 +1282,24 @@ class C18(Prop):
             ctx.add("resp", [dels([s])], group=g)
             for hv in case_variants(rng, head, nv):
                 ctx.add("resp", [dels([hv + s[len(head):]])], group=g)
+        # chunked responses whose head *and trailer section* change case
+        for _ in range(ctx.n(150, 1500)):
+            H = [(rng.choice(G.NAMES_OK), rng.choice(G.VALUES_OK).strip(b" \t")) for _ in range(rng.randint(0, 2))]
+            H = [(n, v) for n, v in H if n.lower() not in (b"content-length", b"transfer-encoding")]
+            H.insert(rng.randint(0, len(H)), (b"Transfer-Encoding", rng.choice([b"chunked", b"gzip, chunked", b"x,chunked"])))
+            if rng.random() < 0.5:
+                H.insert(rng.randint(0, len(H)), (b"Trailer", b"X-T"))
+            T = [rng.choice([(b"X-T", b"1"), (b"Content-Length", b"999"), (b"Transfer-Encoding", b"gzip"),
+                             (b"Trailer", b"y"), (b"Content-Type", b"text/plain"), (b"Content-Encoding", b"gzip")])
+                 for _ in range(rng.randint(1, 3))]
+            payload = bytes(rng.choice(b"xyz01 ") for _ in range(rng.randint(0, 12)))
+            enc = (b"%x\r\n" % len(payload) + payload + b"\r\n" if payload else b"") + b"0\r\n"
+            head = b"HTTP/1.1 200 OK\r\n" + G.block([n + b": " + v for n, v in H])
+            trailer = G.block([n + b": " + v for n, v in T])
+            g = ("case", "resp-chunked", head + enc + trailer)
+            ctx.add("resp", [dels([head + enc + trailer])], group=g)
+            for hv, tv in zip(case_variants(rng, head, nv), case_variants(rng, trailer, nv)):
+                ctx.add("resp", [dels([hv + enc + tv])], group=g)
         for _ in range(ctx.n(150, 1500)):
             cid = add_decode_case(ctx, damaged=rng.random() < 0.2)
             m = ctx.meta[cid]
@@ -1262,12 +1317,24 @@ class C18(Prop):
                 hs2 = [(case_variants(rng, n.encode(), 1)[0].decode(), case_variants(rng, v.encode(), 1)[0].decode()) for n, v in m["hs"]]
                 ctx.add("txt", [hdrs_spec(hs2), m["args"][1]], group=g, hs=hs2, body=m["body"])
 
+    @staticmethod
+    def fold_headers(h):
+        if h in ("-", None):
+            return "-"
+        out = []
+        for nv in h.split(","):
+            n, _, v = nv.partition(":")
+            out.append(bytes.fromhex(n).lower().hex() + ":" + bytes.fromhex(v).lower().hex())
+        return ",".join(out)
+
     def project(self, ctx, cid, canon):
         k = ctx.meta[cid]["kind"]
         f = fields_of(canon)
         if k in ("req", "resp"):
             v = f.get("v", "?")[:1]
-            return f"v={v};tot={f.get('tot')};b={f.get('b')}" if v != "R" else "v=R"
+            if v == "R":
+                return "v=R"
+            return f"v={v};tot={f.get('tot')};b={f.get('b')};h={self.fold_headers(f.get('h'))}"
         if k == "dec":
             return canon.split(";h=")[0]
         return canon
